@@ -123,6 +123,12 @@ def check_param(h, scn, rep, flat_set, pick):
         except Exception as e:
             raise Failure("C11:param-decode-error", f"vector {list(v)} raised {type(e).__name__}: {e}")
         got = describe(a)
+        if isinstance(form, np.ndarray) and cnt % 6 == 2:
+            # the same array object decoded again (render_action(a) then step(a)): same action, array untouched
+            again = describe(space.get_action(form))
+            if again != got or form.tolist() != list(v):
+                raise Failure("C11:param-decode-twice", f"vector {list(v)} given twice as one int64 array: first {got}, then {again}; "
+                              f"the caller's array is now {form.tolist()}")
         want = expected_decode(spec, v, first_e, first_p)
         if got["kind"] == "noop":
             got = dict(kind="noop", target=got["target"], cost=got["cost"], prob=got["prob"])
